@@ -246,6 +246,9 @@ Proof.
     + left. apply removal_refl.
   - (* rx *) left. unfold rx_step. destruct (rx s) eqn:Erx; simpl.
     + apply rx_loop_top_removal.
+    + destruct (pending s); [destruct (io_set s)|]; apply removal_refl.
+    + destruct (pending s); apply removal_refl.
+    + apply removal_refl.
     + destruct (closed_local s); [apply removal_refl|].
       destruct a as [| |[| | |t ok]]; try apply rx_loop_top_removal; try apply removal_refl.
       destruct (memb t (out s)); [|apply rx_loop_top_removal].
@@ -304,7 +307,7 @@ Fixpoint cputs (k : nat) (l : list cpc) : list nat :=
   | _ :: r => cputs (S k) r
   end.
 Definition hand_t (t : tpc) : list nat := match t with TPark e => [e] | _ => [] end.
-Definition hand_r (r : rpc) : list nat := match r with RReq e => [e] | _ => [] end.
+Definition hand_r (r : rpc) : list nat := match r with RReq e | RTopReq e => [e] | _ => [] end.
 Definition vals (l : list (key * eid)) : list nat := map snd l.
 
 (* where an entry can be: not yet queued, in txq, in pending, registered, in the hand of tx (about to be parked),
@@ -410,8 +413,7 @@ Proof. intros. unfold tx_loop_top, tx_exit, P, Q. destruct (running s); simpl; l
 Lemma rx_loop_top_P : forall s x, P (rx_loop_top s) x + cnt x (hand_r (rx s)) <= P s x.
 Proof.
   intros. unfold rx_loop_top, do_cleanup, rx_finally, P, Q. brk; try lia.
-  - pose proof (fold_remove_cnt x (rev (cleanup s)) (active s)). lia.
-  - pose proof (fold_remove_cnt x (rev (cleanup s)) (active s)). lia.
+  pose proof (fold_remove_cnt x (rev (cleanup s)) (active s)). lia.
 Qed.
 
 Lemma disc_P : forall s d x (f : state -> dpc -> state),
@@ -430,9 +432,11 @@ Theorem cstep_P : forall s a x, P (cstep R2R ERR reqs s a) x <= P s x.
 Proof.
   intros s [t a] x. unfold cstep; simpl. destruct t.
   - (* caller *)
-    unfold caller_step, finish. destruct (nth_error (cs s) i) as [[| |o]|] eqn:En; auto.
+    unfold caller_step, finish. destruct (nth_error (cs s) i) as [[| | |o]|] eqn:En; auto.
     + unfold P, Q; simpl. rewrite cnto_app; simpl.
-      pose proof (cputs_set_put x CWait (cs s) i 0 En ltac:(discriminate)). simpl in H. lia.
+      pose proof (cputs_set_put x (if running s then CWait else CSetOwn) (cs s) i 0 En
+                    ltac:(destruct (running s); discriminate)). simpl in H. lia.
+    + unfold P, Q; simpl. erewrite cputs_set_other; eauto; try discriminate; try lia.
     + assert (C : forall o, cputs 0 (set_nth i (CDone o) (cs s)) = cputs 0 (cs s)).
       { intro o. eapply cputs_set_other; eauto; discriminate. }
       brk; unfold P, Q; simpl; rewrite ?C; lia.
@@ -459,6 +463,9 @@ Proof.
   - (* rx *)
     unfold rx_step. destruct (rx s) eqn:Erx; auto.
     + pose proof (rx_loop_top_P s x). lia.
+    + destruct (pending s); [destruct (io_set s)|]; unfold rx_finally, P, Q; simpl; rewrite Erx; simpl; lia.
+    + destruct (pending s) eqn:Ep; auto. unfold P, Q; simpl. rewrite Erx, Ep. simpl. lia.
+    + unfold P, Q; simpl. rewrite Erx, cnto_app. simpl. lia.
     + assert (L : P (rx_loop_top s) x <= P s x) by (pose proof (rx_loop_top_P s x); lia).
       assert (F : forall sd, P (rx_finally s sd) x <= P s x).
       { intro sd. unfold rx_finally, P, Q; simpl. rewrite Erx. simpl. lia. }
@@ -533,12 +540,102 @@ Proof.
       eapply nth_error_set_nth; eauto.
 Qed.
 
-Lemma dstep_raises : forall s d, snd (dstep s d) = DExc -> d = DExc \/ (d = DMark /\ txset s = false).
+(* ---------------------------------------------------------------- disconnect() never raises (repair a58ac30) *)
+Ltac brk0 := repeat match goal with
+  | |- context[match ?x with _ => _ end] => destruct x eqn:?; simpl
+  | |- context[if ?x then _ else _] => destruct x eqn:?; simpl
+  end.
+
+Lemma dstep_no_exc : forall s d, d <> DExc -> snd (dstep s d) <> DExc.
 Proof.
-  intros s d. destruct d; simpl; auto;
-    unfold post_drain, after_tx, rel_begin, rel_loop_in;
-    repeat match goal with
-    | |- context[match ?x with _ => _ end] => destruct x eqn:?; simpl
-    | |- context[if ?x then _ else _] => destruct x eqn:?; simpl
-    end; intro H; try discriminate; auto.
+  intros s d H. destruct d; simpl; try congruence;
+    unfold post_drain, after_tx, rel_begin, rel_loop_in; brk0; discriminate.
+Qed.
+
+Lemma dstep_frame_us : forall s d, us (fst (dstep s d)) = us s.
+Proof. intros s d. destruct d; simpl; auto; unfold post_drain, after_tx, rel_begin, rel_loop_in; brk0; auto. Qed.
+
+Definition exc_free (s : state) : Prop :=
+  tx s <> TDisc DExc /\ rx s <> RDisc DExc /\ us s <> UDisc DExc.
+
+Lemma cstep_exc_free : forall R2R ERR reqs s a, exc_free s -> exc_free (cstep R2R ERR reqs s a).
+Proof.
+  intros R2R ERR reqs s [t a] [Ht [Hr Hu]]. unfold cstep; simpl. unfold exc_free. destruct t.
+  - unfold caller_step, finish. brk0; repeat split; simpl; congruence.
+  - unfold tx_step. destruct (tx s) eqn:Etx;
+      try (unfold tx_loop_top, tx_exit; brk0; repeat split; simpl; congruence).
+    destruct (d_enabled s d); [|repeat split; congruence].
+    pose proof (dstep_no_exc s d) as N. pose proof (dstep_frame s d) as [_ [_ [_ F]]].
+    pose proof (dstep_frame_us s d) as U.
+    destruct (dstep s d) as [s1 d1]. simpl in *. repeat split; simpl; try congruence.
+    intro E. inversion E; subst. apply N; auto. intro; subst; apply Ht; reflexivity.
+  - unfold rx_step. destruct (rx s) eqn:Erx;
+      try (unfold rx_loop_top, do_cleanup, rx_finally; brk0; repeat split; simpl; congruence).
+    destruct (d_enabled s d); [|repeat split; congruence].
+      pose proof (dstep_no_exc s d) as N. pose proof (dstep_frame s d) as [_ [_ [F _]]].
+      pose proof (dstep_frame_us s d) as U.
+      destruct (dstep s d) as [s1 d1]. simpl in *. repeat split; simpl; try congruence.
+      intro E. inversion E; subst. apply N; auto. intro; subst; apply Hr; reflexivity.
+  - unfold user_step. destruct (us s) eqn:Eu.
+    + repeat split; simpl; congruence.
+    + destruct (d_enabled s d); [|repeat split; congruence].
+      pose proof (dstep_no_exc s d) as N. pose proof (dstep_frame s d) as [_ [_ [F1 F2]]].
+      destruct (dstep s d) as [s1 d1]. simpl in *. repeat split; simpl; try congruence.
+      intro E. inversion E; subst. apply N; auto. intro; subst; apply Hu; reflexivity.
+Qed.
+
+Theorem never_raises : forall R2R ERR reqs sched, exc_free (run R2R ERR reqs sched).
+Proof.
+  intros R2R ERR reqs sched. unfold run.
+  assert (G : forall s, exc_free s -> exc_free (fold_left (cstep R2R ERR reqs) sched s)).
+  { induction sched as [|a r IH]; simpl; intros s H; auto. apply IH. apply cstep_exc_free; exact H. }
+  apply G. repeat split; simpl; discriminate.
+Qed.
+
+(* ---------------------------------------------------------------- the repaired release paths, step by step *)
+Lemma memb_head : forall e l, memb e (e :: l) = true.
+Proof. intros. simpl. rewrite Nat.eqb_refl. reflexivity. Qed.
+
+(* repair 14a9701: every entry taken out of txq by the drain of disconnect() gets its event set by the same thread *)
+Lemma drain_releases : forall s e r, txq s = Some e :: r ->
+  snd (dstep s DQDrop) = DQSet e /\
+  memb e (evset (fst (dstep (fst (dstep s DQDrop)) (DQSet e)))) = true /\
+  snd (dstep (fst (dstep s DQDrop)) (DQSet e)) = DQDrop.
+Proof. intros s e r H. simpl. rewrite H. simpl. rewrite Nat.eqb_refl. auto. Qed.
+
+(* repair 14a9701: a request queued after disconnect() began is released by its own caller *)
+Lemma late_put_self_release : forall R2R ERR reqs s i, running s = false -> nth_error (cs s) i = Some CPut ->
+  let s2 := cstep R2R ERR reqs (cstep R2R ERR reqs s (TC i, ANone)) (TC i, ANone) in
+  memb i (evset s2) = true /\ nth_error (cs s2) i = Some CWait.
+Proof.
+  intros R2R ERR reqs s i Hr Hc. unfold cstep; simpl.
+  assert (E1 : caller_step ERR s i ANone = set_cs (set_txq s (txq s ++ [Some i])) (set_nth i CSetOwn (cs s))).
+  { unfold caller_step. rewrite Hc, Hr. reflexivity. }
+  rewrite E1. remember (set_cs (set_txq s (txq s ++ [Some i])) (set_nth i CSetOwn (cs s))) as s1 eqn:Es1.
+  assert (H1 : nth_error (cs s1) i = Some CSetOwn) by (subst s1; simpl; eapply nth_error_set_nth; eauto).
+  unfold caller_step. rewrite H1. simpl. rewrite Nat.eqb_refl. split; auto.
+  eapply nth_error_set_nth; eauto.
+Qed.
+
+(* repair 2fda835: the rx thread reaches readline only through the re-queue loop, and only with `pending` empty *)
+Lemma recv_only_after_requeue : forall R2R ERR reqs s a,
+  rx s <> RRecv -> rx (rx_step R2R ERR reqs s a) = RRecv -> rx s = RTopEmpty /\ pending s = [].
+Proof.
+  intros R2R ERR reqs s a Hn H. unfold rx_step in H. destruct (rx s) eqn:Erx; try congruence;
+    unfold rx_loop_top, rx_finally, do_cleanup in H;
+    repeat match type of H with
+    | context[match ?x with _ => _ end] => destruct x eqn:?; simpl in H
+    | context[if ?x then _ else _] => destruct x eqn:?; simpl in H
+    end; try discriminate; auto; try congruence.
+Qed.
+Lemma requeue_moves_parked : forall R2R ERR reqs s e r a, rx s = RTopEmpty -> pending s = e :: r ->
+  let s3 := rx_step R2R ERR reqs (rx_step R2R ERR reqs (rx_step R2R ERR reqs s a) a) a in
+  rx s3 = RTopEmpty /\ pending s3 = r /\ txq s3 = txq s ++ [Some e].
+Proof.
+  intros R2R ERR reqs s e r a H1 H2.
+  assert (E1 : rx_step R2R ERR reqs s a = set_rx s RTopGet) by (unfold rx_step; rewrite H1, H2; reflexivity).
+  rewrite E1.
+  assert (E2 : rx_step R2R ERR reqs (set_rx s RTopGet) a = set_rx (set_pending (set_rx s RTopGet) r) (RTopReq e))
+    by (unfold rx_step; simpl; rewrite H2; reflexivity).
+  rewrite E2. unfold rx_step. simpl. auto.
 Qed.
